@@ -45,10 +45,9 @@ def KeysDistinct : Mapper → Prop
   | (k, _) :: m => lookup m k = none ∧ KeysDistinct m
 
 mutual
-/-- visiting the node once more cannot change it: no node below is a key and no `MultiConditional`
-has an empty case body -/
+/-- visiting the node once more cannot change it: no node below is a key -/
 def fixedN (m : Mapper) : Node → Bool
-  | .mk k l ks => (lookup m (.mk k l ks)).isNone && (k != .mcond || dropEmptyBodies ks == ks) && fixedLL m ks
+  | .mk k l ks => (lookup m (.mk k l ks)).isNone && fixedLL m ks
 def fixedL (m : Mapper) : List Node → Bool
   | [] => true
   | x :: xs => fixedN m x && fixedL m xs
@@ -65,21 +64,6 @@ def tupleElems : Mapper → List Node
 
 /-- `KnownRevisit m = false`: complement of the class `spliced-nodes-revisited` -/
 def KnownRevisit (m : Mapper) : Bool := !(fixedL m (tupleElems m))
-
-mutual
-/-- no `MultiConditional` of the tree has a case body that the mapping makes empty -/
-def safeN (m : Mapper) : Node → Bool
-  | .mk k _ ks => (k != .mcond || dropEmptyBodies (specLL m ks) == specLL m ks) && safeLL m ks
-def safeL (m : Mapper) : List Node → Bool
-  | [] => true
-  | x :: xs => safeN m x && safeL m xs
-def safeLL (m : Mapper) : List (List Node) → Bool
-  | [] => true
-  | b :: bs => safeL m b && safeLL m bs
-end
-
-/-- `KnownMcond m o = false`: complement of the class `multiconditional-empty-body-dropped` -/
-def KnownMcond (m : Mapper) (o : List Node) : Bool := !(safeL m o)
 
 mutual
 /-- the nodes of the original that have a counterpart in the new tree: reached by the pre-order descent and not
@@ -100,5 +84,37 @@ end
 
 /-- class `scoped-node-updated-in-place` -/
 def KnownScopedUpdate (cfg : Cfg) (o : List Node) : Bool := !cfg.inplace && !cfg.rebuildScopes && hasScoped o
+
+/-! ## NestedTransformer: reference, written from its docstring ("applies replacements in a depth-first fashion":
+the children of a replacement are transformed too).  A relation, because the reference need not terminate when a
+replacement contains its own key. -/
+
+mutual
+/-- `NSpecN m x r`: `r` stands for `x` (`none` = removed) -/
+inductive NSpecN (m : Mapper) : Node → Option Node → Prop
+  | drop {x : Node} : lookup m x = some .drop → NSpecN m x none
+  | repl {x h : Node} {ks' : List (List Node)} :
+      lookup m x = some (.node h) → NSpecLL m h.kids ks' → NSpecN m x (some (.mk h.kind h.lbl ks'))
+  | keep {x : Node} {ks' : List (List Node)} :
+      lookup m x = none → NSpecLL m x.kids ks' → NSpecN m x (some (.mk x.kind x.lbl ks'))
+inductive NSpecL (m : Mapper) : List Node → List Node → Prop
+  | nil : NSpecL m [] []
+  | cons {x : Node} {r : Option Node} {xs rs : List Node} :
+      NSpecN m x r → NSpecL m xs rs → NSpecL m (x :: xs) (r.toList ++ rs)
+inductive NSpecLL (m : Mapper) : List (List Node) → List (List Node) → Prop
+  | nil : NSpecLL m [] []
+  | cons {b b' : List Node} {bs bs' : List (List Node)} :
+      NSpecL m b b' → NSpecLL m bs bs' → NSpecLL m (b :: bs) (b' :: bs')
+end
+
+/-- a mapper value as `NestedTransformer` is used in Loki: `None`, or the key itself with other non-traversable
+attributes (same class, same children, same expression fields) -/
+def nestedOKPair (k : Node) : Handle → Bool
+  | .drop => true
+  | .node h => h.kind == k.kind && h.kids == k.kids && (!k.kind.payloadTraversable || h.lbl == k.lbl)
+  | .tuple _ => false
+
+/-- `KnownNested m = false`: complement of the class `nested-replacement-built-from-key` -/
+def KnownNested (m : Mapper) : Bool := !(m.all fun p => nestedOKPair p.1 p.2)
 
 end LokiModel.C14
